@@ -52,7 +52,7 @@ def silent(dur=1.0, inevent=None):
 
 
 def is_rest(inevent):
-    return (inevent.get('type') == 'rest' or
+    return (isinstance(inevent, RestEvent) or inevent.get('type') == 'rest' or
             any(isinstance(value, Rest) for value in inevent.values()))
 
 
@@ -652,6 +652,14 @@ class NoteEvent(EventType, partial_events=(
                 ['/n_set', node_id, 'gate', 0])
 
         self['is_playing'] = True
+
+
+class RestEvent(EventType, partial_events=(DurationKeys,)):
+    type = 'rest'
+    is_playing = False
+
+    def play(self):
+        pass  # Only its delta counts.
 
 
 class MidiEvent(EventType, partial_events=(
